@@ -42,6 +42,7 @@ def plan(tier, seed):
     shards += [("threads", g) for g in GROUPS]
     shards += [("threads_uniq", g) for g in ("cubic", "hexagonal", "tetragonal", "monoclinic_b")]
     shards += [("idxpoint", k_) for k_ in range(4)]
+    shards += [("domap", k_) for k_ in range(4 if tier == "quick" else 12)]
     names = list(GROUPS)
     for a in names:
         shards.append(("history", a, 2 if tier == "quick" else 3))
@@ -371,6 +372,35 @@ def _run_uniqlist(desc):
                                          {"entries": len(ul.uniqgrains), "distinct_grains_added": 3, "nfound": [int(g.nfound) for g in ul.uniqgrains]})
                             break
                         sh.states += 1
+                # grain OBJECTS that have been in another collector before (a restart from saved unique grains; a first collection made
+                # without symmetry): the second collector decides with ITS group and with the orientation the grain has NOW
+                if not sh.violations and oi % 24 == 0:            # every 24th order (30 of 720)
+                    gl = [grain.grain(members[m][0].copy(), translation=members[m][1].copy()) for m in order]
+                    first = gip.uniq_grain_list("triclinic", 10.0, 1.0, grains=gl)
+                    ul = gip.uniq_grain_list(name, 10.0, 1.0, grains=first.uniqgrains)
+                    want = 3 if len(ops) > 1 else len(first.uniqgrains)
+                    if len(ul.uniqgrains) != want:
+                        sh.violation("%s:uniq_grain_list:grains-that-were-in-a-triclinic-collector-before-are-not-merged" % name,
+                                     {"kind": "uniqlist", "group": name, "cell": cell, "order": list(order), "history": "triclinic-first"},
+                                     {"entries": len(ul.uniqgrains), "distinct_grains_added": want})
+                    # ... and a grain of the collector is refined (set_ubi, 3 degrees) before the collection is rebuilt: a fresh grain in
+                    # another setting of the NEW orientation is that grain, one with the OLD orientation is not
+                    if not sh.violations:
+                        a = ul.uniqgrains[:1]
+                        old_ubi = a[0].ubi.copy()
+                        new_ubi = np.dot(old_ubi, O.rotation_from_axis_angle((1, 1, 5), 3.0).T)
+                        a[0].set_ubi(new_ubi)
+                        n0 = len(ul.uniqgrains)
+                        again = gip.uniq_grain_list(name, 10.0, 1.0, grains=list(ul.uniqgrains))
+                        again.add([grain.grain(np.dot(ops[k1], new_ubi), translation=a[0].translation + 0.5)])
+                        n1 = len(again.uniqgrains)
+                        again.add([grain.grain(np.dot(ops[k2], old_ubi), translation=a[0].translation - 0.5)])
+                        n2 = len(again.uniqgrains)
+                        if (n1, n2) != (n0, n0 + 1):
+                            sh.violation("%s:uniq_grain_list:rebuilt-collector-does-not-use-the-refined-orientation" % name,
+                                         {"kind": "uniqlist", "group": name, "cell": cell, "order": list(order), "history": "set_ubi-then-rebuild"},
+                                         {"entries_before": n0, "after_new_orientation_again": n1, "after_old_orientation": n2})
+                        sh.states += 2
             sh.evaluations += 1
             sh.states += 1
             if len(ops) > 1:
@@ -556,9 +586,82 @@ def _run_idxpoint(desc):
     return sh
 
 
+def _run_domap(desc):
+    """grid_index_parallel.domap (the makemap step every grid point runs, three tolerance passes): a cubic grain 0.02 degrees inside its
+    fundamental zone, handed in as the indexer found it (0.13 degrees off, on the other side of the border) or in another setting: what comes
+    back is the canonical setting of the TRUE grain - the same matrix whichever estimate it was reached from"""
+    _, k_ = desc
+    import io, contextlib
+    from ImageD11 import sym_u, transform as tr, parameters as P, grain, columnfile as cfm, grid_index_parallel as gip
+    from vt.props import c09
+    sh = Shard()
+    pars = c09.geometries("quick")[(k_ * 7 + 1) % 32]
+    grp = sym_u.cubic()
+    ops = [np.asarray(o, float) for o in grp.group]
+    B = O.cell_to_B(c09.CELL)
+    U0 = O.generic_rotations(seed_of() + k_)[k_ % 6]
+    axis = ((0, 0, 1), (1, 0, 0), (1, 2, -1), (0, 1, 0))[k_ % 4]
+
+    def at(theta):
+        return np.linalg.inv(np.dot(np.dot(O.rotation_from_axis_angle(axis, theta), U0), B))
+
+    def best(theta):
+        return int(np.argmax([np.trace(np.dot(o, at(theta))) for o in ops]))
+    borders = []
+    prev = best(0.0)
+    for th in range(1, 181):
+        cur = best(float(th))
+        if cur != prev:
+            lo, hi = th - 1.0, float(th)
+            for _ in range(50):
+                mid = 0.5 * (lo + hi)
+                if best(mid) == prev:
+                    lo = mid
+                else:
+                    hi = mid
+            borders.append(0.5 * (lo + hi))
+            if len(borders) >= 2:
+                break
+        prev = cur
+    for tb in borders:
+        for side in (1.0, -1.0):
+            truth = at(tb + side * 0.02)
+            want = sym_u.find_uniq_u(truth, grp)
+            pk = c09.simulate(tr, pars, [(truth, np.zeros(3))])
+            n = len(pk)
+            results = []
+            for label, guess in (("other-side-of-the-border", at(tb - side * 0.13)), ("same-side", at(tb + side * 0.15)),
+                                 ("other-setting", np.dot(ops[(5 + k_) % 24], at(tb - side * 0.13)))):
+                colf = cfm.colfile_from_dict({"sc": pk[:, 0].copy(), "fc": pk[:, 1].copy(), "omega": pk[:, 2].copy(), "xc": pk[:, 0].copy(), "yc": pk[:, 1].copy(),
+                                              "sum_intensity": np.ones(n), "Number_of_pixels": np.ones(n) * 10, "drlv2": np.ones(n), "labels": np.ones(n) - 2})
+                gridpars = {"OMEGAFLOAT": 0.0, "TOLSEQ": [0.05, 0.02, 0.01], "NUL": True, "SYMMETRY": "cubic", "NPKS": 20, "FITPOS": True}
+                case = {"kind": "domap", "k": k_, "border_at_deg": tb, "truth_side": side, "estimate": label}
+                with contextlib.redirect_stdout(io.StringIO()):
+                    from ImageD11 import transformer
+                    pobj = transformer.transformer().parameterobj          # the parameter object test_many_points() hands to domap
+                    pobj.set_parameters(dict(pars))
+                    gl = gip.domap(pobj, colf, [grain.grain(guess, np.zeros(3))], gridpars)
+                sh.evaluations += 1
+                if len(gl) != 1 or gl[0].npks < 0.9 * n:
+                    sh.violation("domap:grain-lost", case, {"returned": len(gl), "npks": [int(g.npks) for g in gl], "peaks": n})
+                    continue
+                got = np.asarray(gl[0].ubi, float)
+                results.append(got)
+                sh.nontrivial += 1
+                if np.abs(got - want).max() > 1e-4 * np.abs(want).max():
+                    equivalent = any(np.abs(np.dot(o, got) - want).max() < 1e-4 * np.abs(want).max() for o in ops)
+                    sh.violation("domap:returned-grain-is-not-the-canonical-setting-of-the-grain" if equivalent else "domap:returned-grain-is-not-the-simulated-one",
+                                 case, {"trace_returned": float(np.trace(got)), "trace_canonical": float(np.trace(want))})
+            sh.outcomes.add(("domap", len(results)))
+    sh.sample({"kind": "domap", "k": k_, "borders": borders}, limit=1)
+    return sh
+
+
 def run_shard(desc):
     if desc[0] == "idxpoint":
         return _run_idxpoint(desc)
+    if desc[0] == "domap":
+        return _run_domap(desc)
     if desc[0] == "threads_uniq":
         return _run_threads_uniq(desc)
     if desc[0] == "threads":
@@ -579,6 +682,8 @@ def replay(case):
         r = _run_idxpoint(("idxpoint", [q for q in range(4) if (q * 5) % 32 == case["geometry"]][0]))
     elif kind == "alias":
         r = _run_alias(("alias",))
+    elif kind == "domap":
+        r = _run_domap(("domap", case["k"]))
     else:
         r = run_shard((kind, case["group"]))
     return (not r.violations), {"violations": r.violations[:5]}
